@@ -621,6 +621,19 @@ func streamOps(c *ctx) {
 				rep = pick(c.r, []int{0, 1, 2, 3})
 			}
 		}
+		// the order of a key_ops list carries no meaning: half of the lists are reversed or rotated
+		if len(ops) > 1 {
+			switch (i / 3) % 4 {
+			case 1:
+				rev := make([]int, len(ops))
+				for j, o := range ops {
+					rev[len(ops)-1-j] = o
+				}
+				ops = rev
+			case 3:
+				ops = append(append([]int{}, ops[1:]...), ops[0])
+			}
+		}
 		k, orc := r.mk()
 		absent := !exhaustive && c.r.intn(6) == 0
 		repName := "absent"
